@@ -141,11 +141,13 @@ int xcm_dns_resolve_sync(struct xcm_addr_host *host, void *log_ref)
 bool xcm_dns_supports_timeout_param(void) { return true; }
 struct xcm_dns_query *xcm_dns_resolve(const char *n, struct xpoll *x, double t, void *l) { (void)n; (void)x; (void)t; (void)l; return (struct xcm_dns_query *)&query_token; }
 struct tconnect *tconnect_create(enum tconnect_algorithm a, struct xpoll *x, void *l) { (void)a; (void)x; (void)l; return (struct tconnect *)&tconnect_token; }
+static int64_t pre_scope, g_tc_scope_out;
 int tconnect_connect(struct tconnect *t, const struct xcm_addr_ip *lip, uint16_t lport, int64_t scope, double tmo, const struct tcp_opts *opts,
 		     const struct xcm_addr_ip *rips, size_t n, uint16_t rport)
 {
-    (void)lip; (void)lport; (void)scope; (void)rips;
+    (void)lip; (void)lport; (void)rips;
     CHECK((void *)t == (void *)&tconnect_token, "C13: the connection's own tconnect");
+    CHECK(scope == pre_scope, "C11: the configured ipv6.scope (or none) is what the connect machinery is given");
     g_tc_connect_calls++; g_tc_num_ips = (int)n; g_tc_opts_arg = opts; g_tc_timeout_arg = tmo; g_tc_port_arg = rport;
     if (g_tc_connect_rc < 0) { errno = g_tc_connect_errno; return -1; }
     g_tc_snapshot = *opts;                 /* TCONNECT contract: snapshot of the options at this moment */
@@ -154,9 +156,11 @@ int tconnect_connect(struct tconnect *t, const struct xcm_addr_ip *lip, uint16_t
 int tconnect_get_connected_fd(struct tconnect *t, int *fd, int64_t *scope, struct tcp_opts *opts)
 {
     CHECK((void *)t == (void *)&tconnect_token, "C13: the connection's own tconnect");
-    (void)scope;
     if (g_tc_get_rc < 0) { errno = g_tc_get_errno; return -1; }
     *fd = DATA_FD; *opts = g_tc_snapshot;
+    /* TCONNECT contract: the scope of the address that connected (the configured one, 0 for IPv6 without, -1 for IPv4) */
+    g_tc_scope_out = pre_scope >= 0 ? pre_scope : (nd_bool() ? 0 : -1);
+    *scope = g_tc_scope_out;
     /* TCONNECT contract (asserted of tconnect.c): the fd handed over has the snapshot options in force */
     K[0] = (struct kopts){ true, true, true, true, true, g_tc_snapshot.keepalive, (int)g_tc_snapshot.keepalive_time, (int)g_tc_snapshot.keepalive_interval,
 			   (int)g_tc_snapshot.keepalive_count, (int)(g_tc_snapshot.user_timeout * 1000) };
@@ -217,6 +221,7 @@ static void build_conn(bool allow_initialized)
     BTS->fd = -1; BTS->fd_reg_id = -1; BTS->conn.query = NULL; BTS->conn.tconnect = NULL;
     BTS->conn.badness_reason = 0;
     BTS->scope = nd_bool() ? -1 : (int64_t)nd_range(0, UINT32_MAX);
+    pre_scope = BTS->scope;
     switch (st) {
     case conn_state_initialized: break;
     case conn_state_resolving: BTS->conn.query = (struct xcm_dns_query *)&query_token; BTS->conn.tconnect = (struct tconnect *)&tconnect_token; break;
@@ -420,6 +425,24 @@ int main(void)
     } else
 	CHECK(rc == -1 && e != 0, "C10: failure is -1 with errno");
     CHECK(BTS->conn.state == pre.state || S->type == xcm_socket_type_server, "C10: reading an attribute does not change the connection state");
+#ifdef SEM_HAS
+    /* C11: what the getter reports is the value the socket holds (the one the setter stored / the one that governs behaviour) */
+#ifndef SEM_ANYTYPE
+    if (S->type == xcm_socket_type_conn)
+#endif
+    {
+	if (SEM_HAS) {
+#ifdef SEM_STR
+	    if (cap >= strlen(SEM_STR) + 1) CHECK(rc == (int)strlen(SEM_STR) + 1 && strcmp((char *)buf, SEM_STR) == 0, "C11: the attribute reports the configured value");
+#else
+	    SEM_T expect = SEM_V;
+	    CHECK(rc == (int)sizeof(SEM_T) && memcmp(buf, &expect, sizeof(SEM_T)) == 0, "C11: the attribute reports the configured value");
+#endif
+	} else
+	    CHECK(rc == -1, "C10,C11: an attribute that has no value on this socket is not reported");
+	WITNESS(SEM_HAS, "attribute present");
+    }
+#endif
     return 0;
 }
 #endif
@@ -483,6 +506,7 @@ int main(void)
     if (st == conn_state_ready) {
 	CHECK(BTS->fd == DATA_FD && g_fd_add_calls == 1 && g_fd_add_fd == DATA_FD, "C04: the established descriptor is registered");
 	CHECK(k_matches(&K[0], &cur), "C11: keepalive and user-timeout settings given before or DURING establishment are in force on the established connection");
+	CHECK(BTS->scope == g_tc_scope_out && (pre_scope < 0 || BTS->scope == pre_scope), "C11: ipv6.scope of an established connection reports the scope in force - a configured one is never replaced");
 	CHECK(g_tconnect_destroyed && BTS->conn.tconnect == NULL, "C08: tconnect released once connected");
 	WITNESS(memcmp(&cur, &g_tc_snapshot, sizeof(cur)) != 0, "options changed while the TCP handshake was pending");
     }
